@@ -148,6 +148,23 @@ fn cmd_expand(rest: &str) -> String {
 }
 
 #[cfg(feature = "jeltef_derive_more_verif")]
+fn cmd_meta(rest: &str) -> String {
+    // meta <attr name> <comma separated allowed params | -> <hex attributes source>  ->  ok <7 flags> | err <msg>
+    let mut it = rest.split(' ');
+    let (Some(name), Some(allowed), Some(h)) = (it.next(), it.next(), it.next()) else {
+        return "bad-op".into();
+    };
+    let Some(src) = hex_decode(h) else {
+        return "bad-op".into();
+    };
+    let allowed: Vec<&str> = if allowed == "-" { vec![] } else { allowed.split(',').collect() };
+    match crate::utils::verif_hooks::meta_info(name, &src, &allowed) {
+        Ok(flags) => format!("ok {flags}"),
+        Err(e) => format!("err {}", one_line(&e)),
+    }
+}
+
+#[cfg(feature = "jeltef_derive_more_verif")]
 fn cmd_comb(rest: &str) -> String {
     // comb <name> <hex input>  ->  ok <hex rest> <hex consumed> | none | bad-op
     let mut it = rest.split(' ');
@@ -269,6 +286,8 @@ fn handle(line: &str) -> String {
         "attr" => cmd_attr(rest),
         #[cfg(feature = "jeltef_derive_more_verif")]
         "comb" => cmd_comb(rest.trim()),
+        #[cfg(feature = "jeltef_derive_more_verif")]
+        "meta" => cmd_meta(rest.trim()),
         "derives" => crate::dispatch::DERIVES.join(" "),
         "xid" => cmd_xid(rest.trim()),
         "case" => cmd_case(rest.trim()),
